@@ -147,6 +147,9 @@ func (c pbCase) frame() []byte {
 // pbSpecialVersions: the default version, its prefixes and versions that merely START with it.
 var pbSpecialVersions = []string{"1.0.0", "1.0.0-rc1", "1.0.0.1", "1.0.01", "1.0.0+build.0016", "1.0.", "1.0", "1", "1.0.0\x00x", "1.0.1", "01.0.0"}
 
+var pbTextVersions = []string{"1.0.0-\u03b2", "\u00e9", "2.1.0-rc.\u00e9", "1.0.0-alpha.1.\u00fc", "1.\u03b2.0", "\u65e5\u672c", "v\U0001f600", "\U0001f600\U0001f600\U0001f600\U0001f600", "1.0\xce", "1.0\xe6\x97",
+	"\xf0\x9f\x98", "a\x80", "\u00e9\x00\u00e9", "0123456789abcde\xc3", "0123456789abcd\u00e9", "\ufffd", "x\ufffd"}
+
 func pbVersion(r *gen.Rand, n int) string {
 	if n == 0 {
 		return ""
@@ -154,6 +157,11 @@ func pbVersion(r *gen.Rand, n int) string {
 	if r.Intn(6) == 0 {
 		// one version in six is related to DefaultVer; the requested length is only a hint then
 		return pbSpecialVersions[r.Intn(len(pbSpecialVersions))]
+	}
+	if r.Intn(8) == 0 {
+		// text versions: valid multi-byte UTF-8 at the end, in the middle, up to the full 16 bytes, and
+		// truncated / invalid sequences at the end
+		return pbTextVersions[r.Intn(len(pbTextVersions))]
 	}
 	v := make([]byte, n)
 	for i := range v {
